@@ -34,13 +34,15 @@ def write_cfg(ctx, name, **kw):
         f.write(CFG % d)
 
 
-def run(ctx, focus):
+def run(ctx, focus, lite=False, rep=None):
     thorough = ctx.tier == "thorough"
-    rep = vf.Report(ctx)
+    rep = rep or vf.Report(ctx)
     # 1. exhaustive model checking of the repaired design
     mc = [("MC_Rolling_race", dict(writes=3 if thorough else 2, ticks=5 if thorough else 4)),
           ("MC_Rolling_fault", dict(writes=3 if thorough else 2, ticks=4, outages=2 if thorough else 1)),
           ("MC_Rolling_restart", dict(writers="1", writes=3, ticks=4, outages=1, restarts=1))]
+    if lite:
+        mc = mc[:1]
     for name, kw in mc:
         write_cfg(ctx, name, **kw)
         ctx.tlc("Rolling", name, timeout=3000)
@@ -60,7 +62,7 @@ def run(ctx, focus):
               extra='          MaxSteps = 120  Goal = ""', spec="GenSpec",
               inv="TypeOK SequentialFresh ExactlyOnce NothingLost NoDuplicateAnywhere NotBeforeName NameLaw FdBound FdZeroAfterStop GenEmit",
               props="")
-    sim = ctx.tlc("RollingGen", "Gen_Rolling_sim", simulate="num=%d" % (3000 if thorough else 250), depth=130,
+    sim = ctx.tlc("RollingGen", "Gen_Rolling_sim", simulate="num=%d" % ((3000 if thorough else 250) // (3 if lite else 1)), depth=130,
                   workers=1, timeout=2400)
     # keep only maximal histories (an emitted history may be a prefix of the next one)
     em = sim.emitted
